@@ -128,6 +128,8 @@ type program struct {
 	inIdx   int
 	// scriptsOnly: execute through WithScripts (no transaction context)
 	scriptsOnly bool
+	// huge: the program builds a stack item of a MiB or more; it is observed through fingerprinting recorders only
+	huge bool
 }
 
 // spendingTx builds the context the reference tests use (fresh objects every call).
@@ -396,8 +398,54 @@ func genProgram(c *kernel.RunCtx) *program {
 	return p
 }
 
+// hugeProgram: after Genesis, a block of about a KiB is doubled by DUP CAT until the item is 1-2.3 MiB (sizes on, just
+// below and just above 2^20 and 2^21), sometimes parked on the alt stack for a few steps; its hash and size decide the verdict.
+func hugeProgram(c *kernel.RunCtx) *program {
+	c.Begin("huge")
+	defer c.End()
+	bl := []int{1024, 1023, 1025, 2048, 1100, 512, 4096}[c.Choose(7)]
+	block := fillBytes(c, bl)
+	k := 0
+	for bl<<uint(k) < 1<<20 {
+		k++
+	}
+	if c.Bool(1, 4) && bl<<uint(k+1) <= 2400000 {
+		k++
+	}
+	big := block
+	for i := 0; i < k; i++ {
+		big = append(append(make([]byte, 0, 2*len(big)), big...), big...)
+	}
+	h := sha256.Sum256(big)
+	wrong := c.Bool(1, 4)
+	if wrong {
+		h[c.Choose(32)] ^= 1
+	}
+	p := &program{src: fmt.Sprintf("generated-huge-item(%d bytes)", len(big)), huge: true, amount: 1, flags: parseFlags("UTXO_AFTER_GENESIS")}
+	p.unlock = pushOf(block)
+	for i := 0; i < k; i++ {
+		p.lock = append(p.lock, 0x76, 0x7e) // DUP CAT
+	}
+	switch c.Choose(3) {
+	case 1:
+		p.lock = append(p.lock, 0x6b, 0x51, 0x75, 0x6c) // TOALTSTACK 1 DROP FROMALTSTACK
+	case 2:
+		p.lock = append(p.lock, 0x76, 0x6b, 0x75, 0x6c) // DUP TOALTSTACK DROP FROMALTSTACK
+	}
+	p.lock = append(p.lock, 0x76, 0xa8) // DUP SHA256
+	p.lock = append(p.lock, pushOf(h[:])...)
+	p.lock = append(p.lock, 0x88, 0x82) // EQUALVERIFY SIZE
+	p.lock = append(p.lock, pushOf(scriptNumBytes(len(big)))...)
+	p.lock = append(p.lock, 0x9c) // NUMEQUAL
+	return p
+}
+
 func (w *c19World) pickProgram(c *kernel.RunCtx) *program {
 	cp := loadCorpus()
+	if c.RunIdx >= 2*len(cp) && c.RunIdx%499 == 17 {
+		c.Count("probe.huge_item_program", 1)
+		return hugeProgram(c)
+	}
 	if c.RunIdx < 2*len(cp) {
 		e := cp[c.RunIdx/2]
 		u, _ := hex.DecodeString(e.U)
@@ -464,6 +512,42 @@ func checkProgram(c *kernel.RunCtx, p *program, seeded scribbleMode, nAttach int
 	const maxVolume = 48 << 20
 	c.Exec()
 	var o0 outcome
+	if p.huge {
+		// MiB-sized items: verdict and isolation through recorders that fingerprint instead of copying
+		o0 = execProgramOn(c19Engine(), p, nil)
+		plain := &recorder{max: maxEvents, light: true}
+		c.Exec()
+		o1 := execProgramOn(c19Engine(), p, plain)
+		if !o0.same(o1) {
+			c.Fail("verdict", site, "attaching a recording debugger changed the outcome: without %s, with %s (%s)", o0, o1, p.src)
+			return
+		}
+		if o1.class != "panic" {
+			if id, msg := lifecycleCheck(plain.events, o1.err, false); id != "" {
+				c.Fail(id, site, "%s (%s)", msg, p.src)
+				return
+			}
+		}
+		for _, v := range []struct {
+			name string
+			mode scribbleMode
+		}{{"scribble-all", scribbleMode{on: true, all: true}}, {"scribble-seeded", seeded}} {
+			r := &recorder{mode: v.mode, max: maxEvents, light: true}
+			c.Exec()
+			o := execProgramOn(c19Engine(), p, r)
+			c.Count("fault.scribble."+v.name, r.scribbled)
+			if !o0.same(o) {
+				c.Fail("verdict", site, "a debugger that %s changed the outcome: %s became %s (%s; scribble kinds %x fields %x style %d)", v.name, o0, o, p.src, v.mode.kinds, v.mode.fields, v.mode.style)
+				return
+			}
+			if d := diffHistories(plain.events, r.events); d != "" {
+				c.Fail("isolation", site, "history recorded under a %s debugger differs from the plain recording: %s (%s)", v.name, d, p.src)
+				return
+			}
+		}
+		c.Count("probe.huge_item_program_checked", 1)
+		return
+	}
 	if meter(true, func() { o0 = execProgramOn(c19Engine(), p, nil) }) > 32<<20 {
 		// a resource-hungry program (post-Genesis limits are MaxInt32): observing it 6 more times is not worth it
 		c.Count("probe.skipped_oversized_program", 1)
